@@ -1142,7 +1142,7 @@ func ruleC12_2chain(c *Ctx, r *Rep) {
 			if !isC || len(args) < 2 {
 				continue
 			}
-			nerr := 0
+			nerr, storageErr := 0, false
 			for _, el := range c.EntShape().sliceElems(args[1], &frame{bind: map[*ssa.Parameter]ssa.Value{}}, 0) {
 				if _, unk := el.v.(unknownSlice); unk {
 					continue
@@ -1156,9 +1156,12 @@ func ruleC12_2chain(c *Ctx, r *Rep) {
 				}
 				if types.Implements(v.Type(), errIface) {
 					nerr++
+					if mayBeStorageError(c, v) {
+						storageErr = true
+					}
 				}
 			}
-			if nerr == 0 {
+			if nerr == 0 || !storageErr {
 				continue
 			}
 			n++
@@ -1167,6 +1170,82 @@ func ruleC12_2chain(c *Ctx, r *Rep) {
 		}
 	}
 	r.OK("C12.2", "C12.2:error-chain", 0, fmt.Sprintf("%d re-wrapping sites on the storage path, all with %%w", n))
+}
+
+// mayBeStorageError: can the error value v have been produced by the storage layer (ent, its hooks, the SQL
+// driver, an action, or anything reached through an interface or a function value)? Errors that provably come
+// from elsewhere (the filter parser, encoding, strconv, ...) are not on the unique-violation path.
+func mayBeStorageError(c *Ctx, v ssa.Value) bool {
+	seen := map[ssa.Value]bool{}
+	var walk func(v ssa.Value, d int) bool
+	walk = func(v ssa.Value, d int) bool {
+		if v == nil || seen[v] {
+			return false
+		}
+		if d > 30 {
+			return true
+		}
+		seen[v] = true
+		switch x := v.(type) {
+		case *ssa.Const:
+			return false
+		case *ssa.Phi:
+			for _, e := range x.Edges {
+				if walk(e, d+1) {
+					return true
+				}
+			}
+			return false
+		case *ssa.Extract:
+			return walk(x.Tuple, d+1)
+		case *ssa.MakeInterface:
+			return walk(x.X, d+1)
+		case *ssa.ChangeInterface:
+			return walk(x.X, d+1)
+		case *ssa.UnOp:
+			if al, ok := x.X.(*ssa.Alloc); ok && x.Op == token.MUL {
+				sts := allocStores(al)
+				if len(sts) == 0 {
+					return true
+				}
+				for _, st := range sts {
+					if walk(st.Val, d+1) {
+						return true
+					}
+				}
+				return false
+			}
+			return true
+		case *ssa.FreeVar:
+			if b := freeVarBinding(x); b != nil {
+				return walk(b, d+1)
+			}
+			return true
+		case *ssa.Alloc:
+			for _, st := range allocStores(x) {
+				if walk(st.Val, d+1) {
+					return true
+				}
+			}
+			return false
+		case *ssa.Call:
+			cal := x.Call.StaticCallee()
+			if cal == nil {
+				return true
+			}
+			pk := fnPkgPath(cal)
+			switch {
+			case strings.HasPrefix(pk, "entgo.io/"), strings.HasPrefix(pk, "database/sql"):
+				return true
+			case strings.Contains(pk, "/mmmbbb/"):
+				rel := pk[strings.Index(pk, "/mmmbbb/")+len("/mmmbbb/"):]
+				return rel == "ent" || strings.HasPrefix(rel, "ent/") || rel == "actions" || rel == "services" || rel == "db" || strings.HasPrefix(rel, "db/")
+			}
+			return false
+		}
+		return true
+	}
+	return walk(v, 0)
 }
 
 // C15.4: the background maintenance loops keep running: their wake-up source is a ticker, or a timer that is
